@@ -3,6 +3,7 @@ package props
 import (
 	"fmt"
 	"go/ast"
+	"go/token"
 	"go/types"
 	"sort"
 	"strings"
@@ -153,12 +154,39 @@ func c03Directives(p *core.Program, r *core.Report, e *engines) {
 	// cast table of the code generator: cast kind -> raw operand
 	castRaw := map[string]string{}
 	for _, t := range e.em.Templates["<top>"] {
+		// the kind this path is taken for: a case label, or an equality test that holds on the
+		// path, whose operand is a constant of reflect.Kind
 		kind := ""
+		cinfo := p.Pkg("compiler").TypesInfo
+		kindConst := func(ex ast.Expr) string {
+			var id *ast.Ident
+			switch x := eng.Unparen(ex).(type) {
+			case *ast.SelectorExpr:
+				id = x.Sel
+			case *ast.Ident:
+				id = x
+			}
+			if id != nil {
+				if c, ok := cinfo.Uses[id].(*types.Const); ok && c.Pkg() != nil && c.Pkg().Path() == "reflect" {
+					return c.Name()
+				}
+			}
+			return ""
+		}
 		for _, c := range t.Conds {
 			if c.Case != nil && c.Case.Clause != nil {
 				for _, ex := range c.Case.Clause.List {
-					if sel, ok := eng.Unparen(ex).(*ast.SelectorExpr); ok {
-						kind = sel.Sel.Name
+					if k := kindConst(ex); k != "" {
+						kind = k
+					}
+				}
+			}
+			if b, ok := eng.Unparen(c.Expr).(*ast.BinaryExpr); ok && c.Case == nil && c.Expr != nil {
+				if (b.Op == token.EQL && c.Taken) || (b.Op == token.NEQ && !c.Taken) {
+					if k := kindConst(b.X); k != "" {
+						kind = k
+					} else if k := kindConst(b.Y); k != "" {
+						kind = k
 					}
 				}
 			}
